@@ -163,6 +163,9 @@ func refClass(err error) string {
 // libToRef: the library compresses, the header is checked against the canonical layout and the
 // reference decoder must return the input exactly.
 func (c *ctx) libToRef(what string, in []byte, crc bool, parts []int, stats bool) (stream []byte) {
+	if c.o.Poisoned {
+		return nil // a spinning call is still burning CPU in this process: the case is over
+	}
 	c.o.Evals++
 	m := modeName(crc)
 	det := func(stream []byte) map[string]any {
@@ -170,6 +173,14 @@ func (c *ctx) libToRef(what string, in []byte, crc bool, parts []int, stats bool
 	}
 	res := lzwork.Compress(in, crc, parts)
 	switch {
+	case res.Spun:
+		c.o.Poisoned = true
+		c.violate("no-termination:cpu-spin", det(nil), "%s: compression (Writes and Close) burnt %v of CPU time without returning: a call spins", what, lzwork.SpinCPU)
+		return nil
+	case res.Abandoned:
+		c.o.Poisoned = true
+		c.o.Inconclusive = append(c.o.Inconclusive, what+": compression neither returned nor used CPU within "+lzwork.SpinWall.String())
+		return nil
 	case res.Panic != nil:
 		c.panicked(res.Panic, det(nil))
 		return nil
@@ -263,9 +274,22 @@ func (c *ctx) libToRef(what string, in []byte, crc bool, parts []int, stats bool
 
 // refToLib: the canonical encoder compresses, the library must decode exactly and Close() == nil.
 func (c *ctx) refToLib(what string, in, stream []byte, crc bool, src lzwork.Source, rp lzwork.ReadPlan) {
+	if c.o.Poisoned {
+		return
+	}
 	c.o.Evals++
 	m := modeName(crc)
 	res := lzwork.Decompress(stream, crc, src, rp, lzwork.Limits{StopAfter: -1, Keep: len(in) + 256, MaxBytes: int64(len(in)) + 4096})
+	if res.Spun || res.Abandoned {
+		c.o.Poisoned = true
+		if res.Spun {
+			c.violate("no-termination:cpu-spin", map[string]any{"direction": "reference->library", "input": what, "input_hex": lzwork.Hex(in, 200), "stream_hex": lzwork.Hex(stream, 200), "mode": m},
+				"%s: decompressing a canonical stream burnt %v of CPU time without returning: a call spins", what, lzwork.SpinCPU)
+		} else {
+			c.o.Inconclusive = append(c.o.Inconclusive, what+": decompression neither returned nor used CPU within "+lzwork.SpinWall.String())
+		}
+		return
+	}
 	c.o.Count("read_calls", res.Reads)
 	c.o.Count("readplan_"+rp.String(), 1)
 	c.o.Count("source_"+src.String(), 1)
